@@ -16,6 +16,7 @@ import DateutilVerif.Proofs.RRuleSecondly
 import DateutilVerif.Proofs.RRuleMinutelyBy
 import DateutilVerif.Proofs.RRuleDailyW
 import DateutilVerif.Proofs.RRuleMonthlyW
+import DateutilVerif.Proofs.RRuleMinutelyBH
 
 namespace RRule
 open Cal
@@ -103,6 +104,10 @@ theorem iter_eq_spec_supported (a : Args) (r : Rule) (h : construct a = .ok r) (
     obtain ⟨hf, ⟨hi, hv, hz⟩, h1, h2, h3, h4, h5⟩ := hs
     obtain ⟨l, hl, _, hlr⟩ := someWith_elim h4
     exact iter_eq_spec_minutely_byminute ⟨hf, hi, hv, wArgOk_elim h1, h2, hz, h3, ⟨l, hl, hlr⟩, h5⟩ h n hr
+  | minutelyByhour =>
+    obtain ⟨hf, ⟨hi, hv, hz⟩, h1, h2, h3, h4, h5, h6⟩ := hs
+    obtain ⟨l, hl, hne, _⟩ := someWith_elim h3
+    exact iter_eq_spec_minutely_byhour ⟨hf, hi, hv, wArgOk_elim h1, h2, hz, ⟨l, hl, hne⟩, h4, h5, h6⟩ h n hr
   | secondly =>
     obtain ⟨hf, ⟨hi, hv, hz⟩, h1, h2, h3, h4, h5⟩ := hs
     exact iter_eq_spec_secondly ⟨hf, hi, hv, wArgOk_elim h1, h2, hz, h3, h4, h5⟩ h n hr
